@@ -37,6 +37,12 @@ LIB_NOTE = ("Trusted base: the Go toolchain; the driver (generator + oracle) in 
             "Oracles are written from the property statement, documentation and API comments. Says nothing about inputs the generators do not reach; coverage floors turn that into inconclusive.")
 
 CLAIMS.update({
+    "C06": dict(engine="lib", note=LIB_NOTE, technique="runtime monitoring: public-observer state snapshot before/after every libmem call; lock-step twin allocator for offer-vs-allocate; pooled offers committed late for staleness",
+                text="Exploration: about a hundred thousand generated allocator histories (2-8 nodes, DRAM/PMEM/HBM/memory-less/movable nodes, seven distance shapes, custom expand/overcommit functions) of Allocate/GetOffer/Commit/Realloc/Release; every failed call and every GetOffer must leave the observable state (requests, assigned zones, usage of all 2^n node sets) unchanged and must not change the result of an identical later request; fresh commits must equal the offer and a direct allocation on a lock-step twin; offers pooled across later successful operations must be refused; a release removes exactly one allocation.",
+                ref="DESIGN.md §4 C06, §10.7"),
+    "C07": dict(engine="lib", note=LIB_NOTE, technique="runtime monitoring: Hall-condition fit over all node subsets, type/normal-memory/superset/reservation/exact-update oracles after every successful libmem call",
+                text="Exploration on the C06 workload: after every successful Allocate/Realloc/Commit every node subset holds no more confined allocations than its capacity (known finding KF5 for unions of overlapping zones), strict requests only get nodes of the requested types, new zones contain normal memory, other allocations only move to supersets, reservations never move, Realloc never removes nodes, and the returned update map is exactly the set of changed assignments.",
+                ref="DESIGN.md §4 C07, §10.7"),
     "C08": dict(engine="lib", note=LIB_NOTE, technique="runtime monitoring: set-algebra oracle on real AllocateCpus/ReleaseCpus calls over generated machines, subsets, counts and options; repeat-call determinism",
                 text="Exploration: hundreds of thousands of real allocator calls on generated machines (hybrid, L2 clusters, offline CPUs, cpufreq/EPP priority classes), every result checked for exact count, subset, bookkeeping of the mutated set, failure on too-large counts and determinism (same allocator, twin allocator); thorough enumerates small machines completely.",
                 ref="DESIGN.md §4 C08"),
@@ -46,6 +52,10 @@ CLAIMS.update({
     "C13": dict(engine="rm", technique="runtime monitoring: before/after observation around every reconfiguration (incl. policy-internal state) + differential twins with self-twin calibration",
                 text="Exploration: every reconfiguration inside generated histories is bracketed by observations (per-container cache resources, runtime view, advertised zones, policy assignments, policy-internal state steering later decisions): identical configs and rejected configs of every rejection kind must change nothing, accepted ones must leave every live container allocated; differential twins replay a deterministic history with a rejected update injected at a PRNG-chosen boundary and compare every later request.",
                 ref="DESIGN.md §4 C13"),
+    "C15": dict(engine="rm", note=RM_NOTE + " Race reports come from the Go race detector (happens-before: reports real races on executed paths only, never false ones).",
+                technique="runtime monitoring: Go race detector over concurrent handler bursts; porcupine linearizability check of cache membership; state-invariant monitors at quiescence; watchdog for deadlocks",
+                text="Exploration: a -race build of the real pipeline (both policies) receives bursts of 2-6 concurrent requests (container and pod lifecycle, updates, Synchronize, reconfigure, policy events) plus a fake kubelet pod-resources server with PRNG delays; the race detector must stay silent (reports are deduplicated by site pair), the recorded call/return history must be linearizable against a sequential membership model, all order-independent C01-C05/C09 clauses are checked at quiescence, a watchdog flags bursts that never return, and a pod inserted with a pending resource fetch must see its result.",
+                ref="DESIGN.md §4 C15, §10.2"),
     "C16": dict(engine="lib", note=LIB_NOTE, technique="runtime monitoring: discovered sysfs.System vs generating machine model; topology-aware pool tree vs shape computed from model + configuration",
                 text="Exploration: thousands of generated machines written as sysfs trees; every accessor of the discovered system is compared with the generating model; for several configurations per machine the real topology-aware backend is set up and its pool tree (root, levels, CPU splits, memory attachment incl. CPU-less PMEM/HBM nodes) is compared with the documented shape.",
                 ref="DESIGN.md §4 C16"),
